@@ -224,6 +224,22 @@ def r7_reward_definitions(ctx, fn):
     oki = bool(incs) and all(isinstance(i.value, ast.Compare) and isinstance(i.value.ops[0], ast.In) and unparse(i.value.comparators[0]) in true_names for i in incs)
     loop_ok = all(any(isinstance(a, ast.For) and unparse(a.target) == unparse(i.value.left) for a in ancestors(i)) for i in incs) if oki else False
     ctx.ob("C14.R7", PRIM, "HammingReward.__call__", incs[0] if incs else call, "the numerator counts the chosen labels that are in the true label set", oki and loop_ok, stmt="jaccard numerator")
+    # BinaryReward: value iff the action EQUALS the label (value equality -- two Categoricals with the same level but different level lists are the same label)
+    bcall = ctx.fn(PRIM, "BinaryReward.__call__")
+    arg_names = {"self._argmax"} | {t.id for x in walk_shallow(bcall) if isinstance(x, ast.Assign) and unparse(x.value) == "self._argmax" for t in x.targets if isinstance(t, ast.Name)}
+    ifx = [x for x in ast.walk(bcall) if isinstance(x, ast.IfExp) and unparse(x.body) == "self._value"]
+    ctx.floor("C14.R7", "value-or-zero expression in BinaryReward.__call__", len(ifx), 1)
+    for x in ifx:
+        t = x.test
+        hops = 0
+        while isinstance(t, ast.Name) and hops < 3:
+            ds = assigned_value(bcall, t.id)
+            t = ds[0] if len(ds) == 1 else None
+            hops += 1
+        ok = isinstance(t, ast.Compare) and len(t.ops) == 1 and isinstance(t.ops[0], ast.Eq) and len({unparse(t.left), unparse(t.comparators[0])} & arg_names) == 1 \
+            and not any(isinstance(y, ast.Attribute) and y.attr in ("as_int", "as_onehot") for y in ast.walk(t)) and unparse(x.orelse) == "0"
+        ctx.ob("C14.R7", PRIM, "BinaryReward.__call__", x, "the reward is the value exactly when the action equals the label (one `==` against the stored label, else 0)", ok,
+               detail={"test": unparse(t) if t is not None else "several definitions"}, stmt="binary reward by equality")
     # delist
     dl = [v for v in assigned_value(fn, "delist")] or [x.value for x in ast.walk(fn) if isinstance(x, ast.Assign) and isinstance(x.value, ast.Lambda) and "[0]" in unparse(x.value)]
     ctx.floor("C14.R7", "single-label unwrapping in the generic classification arm", len(dl), 1)
@@ -330,6 +346,7 @@ def r9_label_key_domain(ctx):
 
 
 CONTROLS = [
+    ("categorical labels compared by level index", PRIM, M.replace_expr("BinaryReward.__call__", "argmax == comparable", "(argmax.as_int == comparable.as_int if argmax.__class__ is Categorical and comparable.__class__ is Categorical else argmax == comparable)"), "C14.R7"),
     ("levels keep their duplicates", "coba/encodings.py", M.delete_stmt("CategoricalEncoder.__init__", lambda st: isinstance(st, ast.If) and "set_values" in ast.unparse(st.test)), "C14.R10"),
     ("Reservoir keeps its generator", "coba/pipes/filters.py", M.chain(M.insert_after("Reservoir.__init__", M.simple_has("self._seed = seed"), "self._rng = CobaRandom(seed)"),
                                                                       M.replace_expr("Reservoir.filter", "CobaRandom(self._seed)", "self._rng")), "C14.R10"),
